@@ -15,11 +15,15 @@ func (c *ctx) drawString() string {
 	n := c.g.Range(0, 6)
 	b := make([]byte, 0, n)
 	for i := 0; i < n; i++ {
-		switch c.g.Pick(6, 4, 2, 1, 1) {
+		switch c.g.Pick(6, 4, 2, 1, 1, 2) {
+		case 5:
+			b = append(b, '\\', "lrNGnT"[c.g.Intn(6)]) // backslash + escape letter
 		case 0:
 			b = append(b, specials[c.g.Intn(len(specials))])
 		case 1:
-			b = append(b, byte('a'+c.g.Intn(6)))
+			// letters, including those that follow a backslash in Dot's own escape
+			// sequences (\l \r \N \G \E \T \H \L): a backslash in a Go string is data
+			b = append(b, "abcdeflrNGETHLn"[c.g.Intn(15)])
 		case 2:
 			b = append(b, " \t,;=[]-%/n"[c.g.Intn(11)])
 		case 3:
